@@ -144,6 +144,29 @@ theorem effective_spec (own layout master : Option Int) :
   · intro h1 h2; subst h1; cases layout <;> simp_all [effective]
   · intro h1 h2; subst h1; subst h2; rfl
 
+/-- the chain slide -> layout (same idx, first in document order) -> master (mapped type, first in document order)
+    is `effective` applied to the three own values; in particular an own value of 0 is a value, not "absent" -/
+theorem reported_spec (own : Option Int) (idx : Nat) (lay : List (Nat × Str × Option Int)) (mas : List (Str × Option Int)) :
+    (∀ v, own = some v → reported own idx lay mas = some v) ∧
+    (own = none → ∀ ty lv, firstWith (fun e => e.1 == idx) lay = some (idx, ty, lv) →
+      (∀ v, lv = some v → reported own idx lay mas = some v) ∧
+      (lv = none → ∀ mt mv, masterType ty = some mt → firstWith (fun e => e.1 == mt) mas = some (mt, mv) →
+        reported own idx lay mas = mv)) := by
+  refine ⟨?_, ?_⟩
+  · intro v h; subst h; rfl
+  · intro h ty lv hl; subst h
+    refine ⟨?_, ?_⟩
+    · intro v hv; subst hv; simp [reported, hl]
+    · intro hv mt mv hm hf; subst hv; simp [reported, hl, hm, hf]
+
+/-- every placeholder type a slide layout can hold, except header and slide image, has a master counterpart, and the
+    counterpart is one of the five placeholder kinds a slide master has -/
+theorem masterType_total :
+    ∀ ty ∈ ["title", "body", "ctrTitle", "subTitle", "dt", "sldNum", "ftr", "obj", "chart", "tbl", "clipArt", "dgm", "media", "pic"],
+      ∃ mt ∈ ["title", "body", "dt", "ftr", "sldNum"], masterType ty.toList = some mt.toList := by decide
+
+example : reported none 3 [(3, "subTitle".toList, none)] [("title".toList, some 1), ("body".toList, some 0)] = some 0 := by decide
+
 example : nextPhName "Title".toList 3 ["Title 2".toList, "Title 3".toList] = some "Title 4".toList := by decide
 
 end Pptx.C13
